@@ -474,3 +474,35 @@ func c12TreeMutate(r *Rng, root *c12Node, m *c12Mutant) bool {
 	}
 	return true
 }
+
+// c12FieldMutants enumerates, for every map entry at every level of the encoding, the mutant with
+// that value replaced by null and the mutant with the entry removed.
+func c12FieldMutants(b []byte) []*c12Mutant {
+	root, rest, ok := c12Parse(b)
+	if !ok || len(rest) != 0 {
+		return nil
+	}
+	var all []*c12Node
+	root.all(&all)
+	var out []*c12Mutant
+	for idx, n := range all {
+		if n.major != 5 {
+			continue
+		}
+		for e := 0; e < len(n.kids)/2; e++ {
+			for _, kind := range []string{"nullfield", "dropfield"} {
+				cp := root.clone()
+				var cps []*c12Node
+				cp.all(&cps)
+				t := cps[idx]
+				if kind == "nullfield" {
+					t.kids[2*e+1] = c12Null()
+				} else {
+					t.kids = append(t.kids[:2*e], t.kids[2*e+2:]...)
+				}
+				out = append(out, &c12Mutant{kind: kind, bytes: cp.enc()})
+			}
+		}
+	}
+	return out
+}
